@@ -60,7 +60,18 @@ typedef struct {
     int32_t expect;        /* service ops: model expectation */
 } op_t;
 
-typedef struct { sslSessionId_t *sid; int lt; int ver; uint16_t suite; int cauth; } lc_t;
+typedef struct { sslSessionId_t *sid; int lt; int ver; uint16_t suite; int cauth; int slot; } lc_t;
+
+/* Credential board: after a completed handshake a worker publishes a copy of its session-id / RFC 5077 ticket
+ * credential; other workers borrow it into a private sslSessionId_t, so that ONE cache entry / ticket is resumed by
+ * several threads at the same time (reference counts > 1).  One small mutex per board cell: it orders only the
+ * publisher before the borrower of that cell, not the threads in general. */
+typedef struct {
+    pthread_mutex_t mu; int valid; int lt, ver; uint16_t suite; uint32 cipherId;
+    unsigned char id[SSL_MAX_SESSION_ID_SIZE]; int idLen; unsigned char ms[SSL_HS_MASTER_SIZE];
+    unsigned char ticket[512]; int ticketLen;
+} board_t;
+static board_t *g_board;   /* [thread][LT_N] */
 
 typedef struct worker {
     int idx; vf_rng rng; int p_yield, p_sleep;
@@ -236,7 +247,7 @@ static void op_handshake(worker_t *w, lc_t *lc, int mode)
     op_t *o = op_new(w, C_HS);
     if (!o) return;
     w->cur = o;
-    o->lc = (uint8_t) (lc - w->lc); o->lt = lc->lt; o->mode = mode; o->suite = lc->suite; o->cauth = lc->cauth;
+    o->lc = (uint8_t) lc->slot; o->lt = lc->lt; o->mode = mode; o->suite = lc->suite; o->cauth = lc->cauth;
     o->call = stamp();
     snap_cred(lc, &o->off_id, &o->off_tk, &o->off_psk, &o->off_sec, o->off_key, &o->off_haskey);
 
@@ -360,12 +371,54 @@ static void op_validate(worker_t *w)
 static void op_reset(worker_t *w, lc_t *lc)
 {
     op_t *o = op_new(w, C_RESET); if (!o) return;
-    o->lc = (uint8_t) (lc - w->lc); o->lt = lc->lt;
+    o->lc = (uint8_t) lc->slot; o->lt = lc->lt;
     o->call = stamp();
     snap_cred(lc, &o->off_id, &o->off_tk, &o->off_psk, &o->off_sec, o->off_key, &o->off_haskey);
     jit(w);
     matrixSslClearSessionId(lc->sid);
     o->ret = stamp();
+}
+
+static void publish(worker_t *w, lc_t *lc)
+{
+    const sslSessionId_t *sd = lc->sid;
+    if (lc->lt == LT_PSK13 || sd->cipherId == 0) return;
+    if (lc->lt == LT_TK12 ? !(sd->sessionTicket && sd->sessionTicketLen > 0 && sd->sessionTicketLen <= 512) : sd->idLen == 0) return;
+    board_t *b = &g_board[w->idx * LT_N + lc->lt];
+    pthread_mutex_lock(&b->mu);
+    b->lt = lc->lt; b->ver = lc->ver; b->suite = lc->suite; b->cipherId = sd->cipherId;
+    memcpy(b->id, sd->id, sizeof b->id); b->idLen = sd->idLen; memcpy(b->ms, sd->masterSecret, sizeof b->ms);
+    b->ticketLen = 0;
+    if (lc->lt == LT_TK12) { memcpy(b->ticket, sd->sessionTicket, sd->sessionTicketLen); b->ticketLen = sd->sessionTicketLen; }
+    b->valid = 1;
+    pthread_mutex_unlock(&b->mu);
+}
+/* handshake with a credential issued to another thread's logical client */
+static void op_borrow(worker_t *w)
+{
+    if (g_nthreads < 2) return;
+    int other = (w->idx + 1 + (int) vf_below(&w->rng, g_nthreads - 1)) % g_nthreads;
+    static const int lts[] = { LT_ID12, LT_ID11, LT_TK12 };
+    int lt = lts[vf_below(&w->rng, 3)];
+    board_t *b = &g_board[other * LT_N + lt];
+    lc_t lc; memset(&lc, 0, sizeof lc);
+    if (matrixSslNewSessionId(&lc.sid, NULL) < 0) return;
+    int ok = 0;
+    pthread_mutex_lock(&b->mu);
+    if (b->valid) {
+        sslSessionId_t *sd = lc.sid;
+        lc.lt = lt; lc.ver = b->ver; lc.suite = b->suite; lc.slot = LT_N + lt;
+        sd->cipherId = b->cipherId; memcpy(sd->id, b->id, sizeof sd->id); sd->idLen = b->idLen;
+        memcpy(sd->masterSecret, b->ms, sizeof sd->masterSecret);
+        if (b->ticketLen > 0) {
+            sd->sessionTicket = psMalloc(sd->pool, b->ticketLen);
+            if (sd->sessionTicket) { memcpy(sd->sessionTicket, b->ticket, b->ticketLen); sd->sessionTicketLen = b->ticketLen; }
+        }
+        ok = 1;
+    }
+    pthread_mutex_unlock(&b->mu);
+    if (ok) op_handshake(w, &lc, vf_below(&w->rng, 10) == 0 ? M_ALERT_APP : M_NORMAL);
+    matrixSslDeleteSessionId(lc.sid);
 }
 
 static const uint16_t suites12[] = { 0xc02f, 0x009c, 0xc027, 0x003d, 0xc030, 0x002f, 0xc02b, 0xc023 };
@@ -379,7 +432,8 @@ static void *worker_main(void *arg)
     for (int i = 0; i < g_nops; i++) {
         uint32_t r = vf_below(&w->rng, 100);
         lc_t *lc = &w->lc[vf_below(&w->rng, LT_N)];
-        if (r < 70) op_handshake(w, lc, M_NORMAL);
+        if (r < 62) { op_handshake(w, lc, M_NORMAL); publish(w, lc); }
+        else if (r < 70) op_borrow(w);
         else if (r < 75) op_handshake(w, lc, M_ALERT_HS);
         else if (r < 80) op_handshake(w, lc, M_ALERT_APP);
         else if (r < 84) op_handshake(w, lc, M_ABANDON);
@@ -588,7 +642,7 @@ int main(int argc, char **argv)
         if (i < g_nthreads) {
             int rot = (int) vf_below(&master, 64);
             for (int t = 0; t < LT_N; t++) {
-                lc_t *lc = &w->lc[t]; lc->lt = t;
+                lc_t *lc = &w->lc[t]; lc->lt = t; lc->slot = t;
                 if (matrixSslNewSessionId(&lc->sid, NULL) < 0) die("newsid", 0);
                 lc->ver = t == LT_PSK13 ? 13 : t == LT_ID11 ? 11 : 12;
                 for (int tries = 0; ; tries++) {
@@ -607,6 +661,8 @@ int main(int argc, char **argv)
     W[g_nthreads + 1].period = (uint32_t) (1 + vf_below(&master, 3)) * (g_nthreads > 3 ? g_nthreads / 2 : 1);
     { worker_t *w = &W[g_nthreads]; int save = w->idx; w->idx = 0xfe; if (tk_add(w, 0) < 0) die("initial ticket key", 0); w->idx = save; w->ops[0].thr = save; }
 
+    g_board = calloc((size_t) g_nthreads * LT_N, sizeof *g_board);
+    for (int i = 0; i < g_nthreads * LT_N; i++) pthread_mutex_init(&g_board[i].mu, NULL);
     g_workers_left = g_nthreads;
     pthread_barrier_init(&g_start, NULL, nw);
     for (int i = 0; i < nw; i++) {
